@@ -12,12 +12,19 @@ use crate::query::{check_query, run_query, Query};
 /// Runs all `queries` on the file against the model; violations are recorded with a replayable
 /// case {file, query}.
 pub fn run_queries(prop: &str, spec: &FileSpec, bytes: &[u8], model: &Model, queries: &[Query], acc: &mut Acc) -> u64 {
+    run_queries_io(prop, spec, bytes, model, queries, acc, false)
+}
+
+/// `short_io`: the file is served by a source that returns short and interrupted reads (the
+/// answers must be the same: the properties quantify over files, not over how they are served).
+pub fn run_queries_io(prop: &str, spec: &FileSpec, bytes: &[u8], model: &Model, queries: &[Query], acc: &mut Acc, short_io: bool) -> u64 {
     let mut yielded = 0u64;
     let mut bad = 0;
     for q in queries {
         acc.evaluations += 1;
         acc.transitions += 1;
-        match check_query(bytes, model, q) {
+        let r = if short_io { crate::query::check_query_short(bytes, model, q) } else { check_query(bytes, model, q) };
+        match r {
             Ok(n) => {
                 yielded += n as u64;
                 acc.hist(if n == 0 { "query_yielded_nothing" } else if n == 1 { "query_yielded_1" } else { "query_yielded_2+" });
@@ -29,7 +36,7 @@ pub fn run_queries(prop: &str, spec: &FileSpec, bytes: &[u8], model: &Model, que
                     acc.violation(Violation {
                         signature: format!("{};{}", serde_json::to_string(spec).unwrap(), serde_json::to_string(q).unwrap()),
                         summary: format!("{prop}: file {} {}: {msg}", serde_json::to_string(&spec.cfg).unwrap(), crate::c01::describe(spec)),
-                        case: json!({"kind": "query", "file": spec, "query": q}),
+                        case: json!({"kind": "query", "file": spec, "query": q, "short_io": short_io}),
                     });
                 } else {
                     acc.violation_count += 1;
@@ -53,7 +60,9 @@ pub fn replay_query(prop: &str, case: &serde_json::Value) -> i32 {
     };
     let bytes = if case["v1"].as_bool().unwrap_or(false) { vlib::fmt::retrail_as_v1(&bytes).unwrap() } else { bytes };
     let model = Model::new(entries);
-    match check_query(&bytes, &model, &q) {
+    let short_io = case["short_io"].as_bool().unwrap_or(false);
+    let r = if short_io { crate::query::check_query_short(&bytes, &model, &q) } else { check_query(&bytes, &model, &q) };
+    match r {
         Ok(n) => {
             println!("replay: {} yields {n} entries as the model says: {:?}", q.brief(), run_query(&bytes, &q).map(|r| crate::query::describe_result(&r)));
             0
@@ -80,6 +89,11 @@ impl QFiles {
         let shape = query_shape_specs(tier.pick(shape_n.0, shape_n.1), false);
         let mut big = deep_specs(tier);
         big.extend(dense_specs(tier).into_iter().filter(|s| s.cfg.block_size.is_some()));
+        // maximal index depths
+        for l in [254u8, 255] {
+            big.push(FileSpec::new(FileCfg::layout(Some(1024), Some(2), l), EntrySpec::Uniform { n: 5, klen: 600, vlen: 1, wide: false }));
+            big.push(FileSpec::new(FileCfg::layout(None, None, l), EntrySpec::Uniform { n: 3, klen: 2, vlen: 2, wide: false }));
+        }
         let subsets = vlib::fam::subsets_up_to(universe().len(), tier.pick(uni_m.0, uni_m.1));
         let uni_cfgs = vec![
             (FileCfg::layout(Some(1024), Some(1), 0), 0usize),
